@@ -278,6 +278,10 @@ fn dsm_hist<const K: usize>(rng: &mut Rng, len: usize, out: &mut Out) {
 }
 
 fn fam_dsm(rng: &mut Rng, n: usize, out: &mut Out) {
+    {
+        macro_rules! ctor { ($k:expr) => {{ let (a, c) = Dsm::<$k>::default().verif_raw(); out.emit(&format!("ctor_dsm {}", $k), Some(format!("{} {}", list(&a), list(&c)))); }}; }
+        ctor!(0); ctor!(1); ctor!(3); ctor!(7); ctor!(8);
+    }
     // the K = 8 overflow witness and the K = 0 case run first (corpus)
     {
         let xs = [
@@ -313,6 +317,11 @@ fn fam_dsm(rng: &mut Rng, n: usize, out: &mut Out) {
 
 // ------------------------------------------------------------------ pll
 fn fam_pll(rng: &mut Rng, n: usize, out: &mut Out) {
+    {
+        // the constructor the lock theorems start from
+        let (x, y0, f0, f, y) = PLL::default().verif_raw();
+        out.emit("ctor_pll", Some(format!("{} {} {} {} {}", x, y0, f0, f, y)));
+    }
     let mut done = 0;
     while done < n {
         let mut p = if rng.chance(1, 2) {
@@ -948,6 +957,10 @@ fn fam_lockin(rng: &mut Rng, n: usize, out: &mut Out) {
 
 // ------------------------------------------------------------------ rpll
 fn fam_rpll(rng: &mut Rng, n: usize, out: &mut Out) {
+    for dt2 in 0..=12u32 {
+        let (d, x, ff, f, y) = RPLL::new(dt2).verif_raw();
+        out.emit(&format!("ctor_rpll {}", dt2), Some(format!("{} {} {} {} {}", d, x, ff, f, y)));
+    }
     let mut done = 0;
     while done < n {
         let len = 1 + rng.below(120) as usize;
